@@ -8,6 +8,7 @@ CONSTANTS
   Wipeouts = FALSE
   Collide = FALSE
   Times = {1, 2}
+  KeepGoing = {FALSE}
   Design = "legacy_template"
 SPECIFICATION Spec
 VIEW view
